@@ -6,6 +6,7 @@ import (
 	"go/constant"
 	"go/token"
 	"go/types"
+	"os"
 	"sort"
 	"strings"
 	"sync"
@@ -954,6 +955,12 @@ func (ex *Exec) feasible(st *State) bool {
 	}
 	ex.nfeas++
 	r := quickCheck(b.String(), 2*time.Second)
+	if r == "unsat" {
+		if d := os.Getenv("GOVC_DUMP_PRUNED"); d != "" {
+			os.MkdirAll(d, 0o755)
+			os.WriteFile(fmt.Sprintf("%s/pruned_%d.smt2", d, ex.nfeas), []byte("(set-logic ALL)\n"+b.String()+"(check-sat)\n"), 0o644)
+		}
+	}
 	return r != "unsat"
 }
 
